@@ -132,57 +132,61 @@ def c29_runs(tier):
         k.setdefault('again', 1 if (k.get('mode', 'plain') == 'plain' and not (n >= 2 and bound >= 1)) else 0)
         dest = san if k.get('mode', 'plain') != 'plain' else (heavy if (n >= 2 and bound >= 1) else runs)
         _run(dest, seen, 29, n, st, items, bound, **k)
-    ATS = (0, 1, 2)  # throw at first / middle / last of 3 items
-    # ---- two stages: every thrower position x item x limit pair (quick: 5 pairs).  One worker: bound 1, one run per
-    # (pair, thrower, item); pools 0 and 2: bound 0, thrower and item enumerated inside the run (-2 wildcards)
+    # thr = throwing stage, at = item it throws at (0/1/2 = first/middle/last of 3); -2 = enumerated inside the run
+    # ---- two stages: every thrower position x item x limit pair (quick: 5 pairs).  One worker: bound 1;
+    # pools 0 and 2: bound 0 (all free switches)
     pairs = ['pp', '2p', 'u2', 'uu', 'p2'] if q else [a + b for a in LIM for b in LIM]
     for st in pairs:
         for thr in (0, 1):
-            for at in ATS:
-                add(1, st, 3, 1, thr=thr, at=at)
-        add(2, st, 3, 0, thr=-2, at=-2)
+            add(1, st, 3, 1, thr=thr, at=-2, budget=90)
+        add(2, st, 3, 0, thr=-2, at=-2, budget=90)
         add(0, st, 3, 0, thr=-2, at=-2)
     # ---- three stages: thrower in each position
     trip = [('ppp', -1), ('p2p', 0), ('u2u', -1), ('2u2', 2)] if q else [('ppp', -1), ('p2p', 0), ('u2u', -1), ('2u2', 2), ('2pu', -1), ('up2', 0), ('22p', 2), ('pu2', -1)]
     for st, kind in trip:
-        add(2, st, 3, 0, thr=-2, at=-2, f1=kind)
+        add(2, st, 3, 0, thr=-2, at=-2, f1=kind, budget=90)
         if q:
             add(1, st, 3, 0, thr=-2, at=-2, f1=kind)
         else:
             for thr in (0, 1, 2):
                 add(1, st, 3, 1, thr=thr, at=-2, f1=kind, budget=120)
     if q:
-        for st, kind, thr, at in (('ppp', -1, 1, 1), ('p2p', 0, 2, 1), ('u2u', -1, 1, 0), ('2u2', 2, 2, 2), ('p2p', 0, 0, 2)):
+        for st, kind, thr, at in (('ppp', -1, 1, 1), ('p2p', 0, 2, 1), ('u2u', -1, 1, 0)):
             add(1, st, 3, 1, thr=thr, at=at, f1=kind)
     # ---- concurrent throwers: the stage throws for every item from `at` on / two different stages throw
-    for st in (['22', 'u2'] if q else ['22', 'u2', 'uu', '2u']):
+    for st in (['22'] if q else ['22', 'u2', 'uu', '2u']):
         add(1, st, 3, 1, thr=1, at=0, all=1)
         add(2, st, 3, 0, thr=1, at=0, all=1)
     add(1, 'p2p', 3, 1, thr=1, at=1, thr2=2, at2=0, f1=-1)
-    add(1, '2u2', 3, 1, thr=0, at=2, thr2=2, at2=0, f1=0)
-    # ---- two workers, bound 1
-    for st, thr, at in ([('pp', 1, 1), ('u2', 0, 2)] if q else [('pp', 1, 1), ('u2', 0, 2), ('2p', 1, 0), ('uu', 1, 2), ('p2', 0, 1), ('22', 1, 1)]):
-        add(2, st, 3, 1, thr=thr, at=at, budget=240)
+    if not q:
+        add(1, '2u2', 3, 1, thr=0, at=2, thr2=2, at2=0, f1=0)
+    # ---- two workers, bound 1 (throwing pipeline only)
+    for st, thr, at in ([('pp', 1, 1)] if q else [('pp', 1, 1), ('u2', 0, 2), ('2p', 1, 0), ('uu', 1, 2), ('p2', 0, 1), ('22', 1, 1)]):
+        add(2, st, 3, 1, thr=thr, at=at, budget=150 if q else 240)
     if not q:
         add(2, 'p2p', 3, 1, thr=1, at=1, f1=0, budget=300)
         add(2, '22', 3, 1, thr=1, at=0, all=1, budget=300)
         for st in ('pp', 'u2', '2p'):
             for thr in (0, 1):
-                add(1, st, 3, 2, thr=thr, at=1, budget=200)
+                add(1, st, 3, 2, thr=thr, at=1, budget=240)
         # single stage and 4 stages
         for n in (1, 2):
-            add(n, '2', 3, 1, thr=0, at=1, budget=120)
+            add(n, '2', 3, 1, thr=0, at=1, budget=150)
             add(n, 'p2u1', 3, 0, thr=-2, at=-2, f1=-1, f2=0)
-    add(1, 'p2u1', 3, 1 if not q else 0, thr=3, at=1, f1=-1, f2=0)
+        add(1, 'p2u1', 3, 1, thr=3, at=1, f1=-1, f2=0)
+    else:
+        add(1, 'p2u1', 3, 0, thr=-2, at=1, f1=-1, f2=0)
     add(1, 'p', 3, 1, thr=0, at=1)
     # ---- LeakSanitizer / ASan+UBSan legs (heap-owning payloads), TSan leg
-    for st, thr, at in (('pp', 0, 2), ('2p', 1, 1), ('uu', 1, 0)):
-        add(1, st, 3, 1 if not q else 0, mode='asan', thr=thr, at=at, budget=150)
-    add(1, 'u2', 3, 1, mode='asan', thr=1, at=1, budget=150)
-    add(2, 'p2p', 3, 0, mode='asan', thr=1, at=1, f1=0)
-    add(2, 'ppp', 3, 0, mode='asan', thr=2, at=0, f1=-1)
-    add(1, 'p2', 3, 1, mode='tsan', thr=1, at=1, budget=150)
-    add(2, 'uu', 3, 0, mode='tsan', thr=0, at=1)
+    add(1, 'pp', 3, 0 if q else 1, mode='asan', thr=0, at=2, budget=120)
+    add(1, 'u2', 3, 1, mode='asan', thr=1, at=1, budget=120)
+    add(2, 'p2p', 3, 0, mode='asan', thr=1, at=1, f1=0, budget=90)
+    if not q:
+        add(1, '2p', 3, 1, mode='asan', thr=1, at=1, budget=120)
+        add(1, 'uu', 3, 1, mode='asan', thr=1, at=0, budget=120)
+        add(2, 'ppp', 3, 0, mode='asan', thr=2, at=0, f1=-1, budget=90)
+    add(1, 'p2', 3, 1, mode='tsan', thr=1, at=1, budget=120)
+    add(2, 'uu', 3, 0, mode='tsan', thr=0, at=1, budget=90)
     return runs + heavy + san
 
 
